@@ -52,6 +52,8 @@ def random_scripts(rng, n, length):
 
 
 def run(ctx):
+    if os.environ.get("VERIF_NO_MC"):      # mutant runs: the model checks do not depend on the code under test
+        ctx.model_check = lambda *a, **k: None
     ctx.sany("CacheSpec", "CacheImpl", "CacheTrace")
     kf = set(ctx.kf_open.keys())
     fids = {Rec(f) for f in FIDS}
@@ -60,35 +62,40 @@ def run(ctx):
     ctx.model_check(mca, workers=4)
     base = {"Fids": fids, "Sizes": set(SIZES), "U": U, "D": 16, "KeyOnly": True, "Mins": set(MINS),
             "SliceArgs": set(SLICES), "BKF": kf | {DEV}}
-    depth = 4 if ctx.thorough else 3
+    # 4 ids (two pairs that share the needle key) in the quick tier, all 8 in the thorough one
+    fids4 = {Rec(f) for f in FIDS if (f["v"], f["c"]) in ((3, 1), (9, 2))}
+    grids = [(fids, 3, 16), (fids, 3, 32), (fids4, 4, 16)] if ctx.thorough else [(fids4, 3, 16)]
     # layer B as built (keyed by needle key): refines layer A only with the listed deviation ...
-    for dd in ((16, 32) if ctx.thorough else (16,)):
-        mc = ctx.instance("MC_C31_D%d" % dd, "CacheImpl", "CacheImpl_mc.cfg", dict(base, D=dd, MaxOps=depth))
-        ctx.model_check(mc, workers=4, timeout=1500, label="as built, deviation admitted, D=%d" % dd)
+    for fs, depth, dd in grids:
+        mc = ctx.instance("MC_C31_D%d_%d_%d" % (dd, len(fs), depth), "CacheImpl", "CacheImpl_mc.cfg",
+                          dict(base, Fids=fs, D=dd, MaxOps=depth))
+        ctx.model_check(mc, workers=4, timeout=1500, label="as built, deviation admitted, D=%d, %d ids, depth %d" % (dd, len(fs), depth))
     # ... TLC finds the aliasing when the deviation is not admitted (the model predicts S33) ...
     mcx = ctx.instance("MC_C31_strict", "CacheImpl", "CacheImpl_mc.cfg", dict(base, BKF=set(), MaxOps=2))
     ctx.model_check(mcx, workers=4, expect_violation="GetRefines", label="as built, strict: aliasing expected")
     # ... and the idealised repair (disk tiers keyed by the whole file id) refines layer A strictly
-    mci = ctx.instance("MC_C31_ideal", "CacheImpl", "CacheImpl_mc.cfg", dict(base, KeyOnly=False, BKF=set(), MaxOps=depth))
-    ctx.model_check(mci, workers=4, timeout=1500, label="keyed by whole file id, strict")
+    for fs, depth, dd in grids[-1:]:
+        mci = ctx.instance("MC_C31_ideal", "CacheImpl", "CacheImpl_mc.cfg",
+                           dict(base, Fids=fs, D=dd, KeyOnly=False, BKF=set(), MaxOps=depth))
+        ctx.model_check(mci, workers=4, timeout=1500, label="keyed by whole file id, strict, %d ids, depth %d" % (len(fs), depth))
 
     rng = random.Random(ctx.seed)
     runs = []  # (du, me, ops)
-    for dd in (16, 32):
-        g2 = ctx.instance("G2_C31_D%d" % dd, "CacheImpl", GEN_W, dict(base, D=dd, MaxOps=4 if ctx.thorough else 3))
+    # (one execution costs ~50 ms of CPU: every cache creation / restart opens 7 leveldb needle maps)
+    gfids = fids if ctx.thorough else fids4      # the driver probes all 8 ids in either tier
+    for dd in ((16, 32) if ctx.thorough else (16,)):
+        g2 = ctx.instance("G2_C31_D%d" % dd, "CacheImpl", GEN_W, dict(base, Fids=gfids, D=dd, MaxOps=3))
         h = ctx.generate(g2, workers=4, timeout=1500)
-        if not ctx.thorough:
-            h = rng.sample(h, min(len(h), 500))
-        elif len(h) > 6000:
-            h = rng.sample(h, 6000)
+        h = rng.sample(h, min(len(h), 1500 if ctx.thorough else 120))
         runs += [(dd, 2, x) for x in h]
-        ga = ctx.instance("GA_C31_D%d" % dd, "CacheImpl", GEN_ALIAS, dict(base, D=dd, MaxOps=3))
+    for dd in ((16, 32) if ctx.thorough else (32,)):
+        ga = ctx.instance("GA_C31_D%d" % dd, "CacheImpl", GEN_ALIAS, dict(base, Fids=gfids, D=dd, MaxOps=3))
         h = ctx.generate(ga, workers=4, timeout=1500)
-        h = rng.sample(h, min(len(h), 1500 if ctx.thorough else 150))
+        h = rng.sample(h, min(len(h), 600 if ctx.thorough else 60))
         runs += [(dd, 2, x) for x in h]
     g3 = ctx.instance("G3_C31", "CacheImpl", GEN_ALL, dict(base, D=32, MaxOps=14))
-    runs += [(32, 2, x) for x in ctx.generate(g3, simulate=600 if ctx.thorough else 80, depth=15)]
-    runs += random_scripts(rng, 2500 if ctx.thorough else 300, 30)
+    runs += [(32, 2, x) for x in ctx.generate(g3, simulate=400 if ctx.thorough else 40, depth=15)]
+    runs += random_scripts(rng, 1500 if ctx.thorough else 120, 30)
 
     script = os.path.join(ctx.out, "script.ndjson")
     if ctx.replay:
